@@ -199,14 +199,15 @@ CHECKS["C04"] = {
 CHECKS["C06"] = {
     "pkg": "./checks/c06",
     "level": "exploration",
-    "technique": "grammar-based request mutation fuzzing (rapid) at every state of a running history, with storage snapshot differencing and panic capture through the in-process handler",
+    "technique": "grammar-based request mutation fuzzing (rapid) at every state of a running history, with storage snapshot differencing and panic capture through the in-process handler; coverage-guided native fuzzing of request bodies (thorough)",
     "rule": ("rapid state machine (the C02 history machine) interleaved with probes: a valid request for swap / mint / melt / mint quote / melt quote / checkstate / restore is built from the current state and one mutation is applied - "
              "structural (drop / null / retype / garble a top-level field or a field of a list element with 19 garbage values incl. non-hex, odd-length hex, 10 kB string, unicode, negative / float / huge numbers, arrays, objects, bools; empty a list; empty / truncated / non-JSON / array / null body; wrong content type; wrong payment method) "
              "or semantic (outputs over by one, duplicate output identical / with changed witness / amount, unknown keyset, non-key amount, non-point B_, already signed B_, overflowing amounts, spent input, unknown quote, underfunded melt, duplicate input with changed witness, forged C), sent through the real HTTP handler in-process; "
              "plus the degenerate shapes as Go values on the exported API (nil/empty lists, zero requests, unknown ids). "
              "oracle: (1) no panic (a handler panic is visible because the handler runs in-process); (2) if the answer is not 200, the snapshot read through the inner storage handle (spent and pending rows of all known and referenced Ys, all quote rows, stored signatures of all known and referenced B_, issued/redeemed sums, keysets) is identical before and after, with LN-driven transitions adopted by polling before the first snapshot; (3) the honest request with the same inputs / the same paid quote then succeeds. "
              "non-trivial: the mutated request referenced >=1 unspent proof or a paid-unissued quote; distinct = (endpoint, mutation class, state size). "
-             "Schedule units (shared race harness): 2..3 concurrent swaps / melts / mint requests / state checks sharing inputs or outputs under random and enumerated schedules at storage/LN-call granularity; oracle: whatever a swap or melt that was answered with an error brought along is still UNSPENT once all requests have returned, unless an accepted request used it; non-trivial = >=1 refused request and >=1 context switch."),
+             "Schedule units (shared race harness): 2..3 concurrent swaps / melts / mint requests / state checks sharing inputs or outputs under random and enumerated schedules at storage/LN-call granularity; oracle: whatever a swap or melt that was answered with an error brought along is still UNSPENT once all requests have returned, unless an accepted request used it; non-trivial = >=1 refused request and >=1 context switch. "
+             "Native fuzz units (thorough, coverage-instrumented build): the fuzzer owns (endpoint, body); bodies are templates whose markers are replaced by resources of a fresh funded mint (unspent / spent proofs, fresh and already signed outputs, paid / unpaid mint quote, melt quote, Ys, keyset id, invoice), 40 seed requests (one unit starts from an empty corpus); oracle inside the target: no panic, and any answer other than 200 leaves the snapshot unchanged; an accepted swap / mint / melt retires the mint so that every saved input replays against the same state."),
     "level_text": "Generated malformed and invalid requests at generated states of the real mint; storage is compared row by row around every refused request and the refused resources are immediately reused honestly.",
     "level_note": _WORLD_NOTE + "Storage and Lightning faults are C07/C20's subject; here storage works.",
     "assumptions": ["snapshot covers the objects known to the model plus those referenced by the probe", "interleaving granularity of the schedule units = one storage or Lightning call"],
